@@ -226,7 +226,7 @@ func checkModel(c modelCase) *vt.Fail {
 				}
 			})
 			if err != nil {
-				return vt.Failf("acquire-failed", "%s failed: %v", step, err)
+				return vt.Failf("HARNESS-acquire-failed", "%s failed with an error (the statement only covers calls that return a lock): %v", step, err)
 			}
 			if insideFail != nil {
 				return insideFail
@@ -393,13 +393,13 @@ func runProgram(sh *rig.Shared, paths []string, prog []step, who string) *vt.Fai
 		if s.Entry == "read" {
 			// Read has no callback: nothing to witness from inside; just exercise it
 			if _, err := lockedfile.Read(paths[s.Path]); err != nil {
-				return vt.Failf("acquire-failed", "%s: %v", what, err)
+				return vt.Failf("HARNESS-acquire-failed", "%s: %v", what, err)
 			}
 			continue
 		}
 		rel, err := acquire(paths[s.Path], s.Entry, critical)
 		if err != nil {
-			return vt.Failf("acquire-failed", "%s: %v", what, err)
+			return vt.Failf("HARNESS-acquire-failed", "%s: %v", what, err)
 		}
 		if rel != nil {
 			critical()
@@ -558,7 +558,7 @@ func checkHandover(c handCase) *vt.Fail {
 	os.WriteFile(p, []byte("initial\n"), 0o666)
 	rel, err := acquire(p, c.Holder, nil)
 	if err != nil {
-		return vt.Failf("acquire-failed", "%v", err)
+		return vt.Failf("HARNESS-acquire-failed", "%v", err)
 	}
 	var released int32
 	var enteredEarly int32
@@ -591,7 +591,7 @@ func checkHandover(c handCase) *vt.Fail {
 	select {
 	case err := <-done:
 		if err != nil {
-			return vt.Failf("acquire-failed", "waiter: %v", err)
+			return vt.Failf("HARNESS-acquire-failed", "waiter: %v", err)
 		}
 	case <-time.After(20 * time.Second):
 		rec.Infra("waiter did not return within 20 s after the release (inconclusive)")
